@@ -1090,7 +1090,7 @@ func (x *c04Run) block(bi int, blk c04Block) (caseText, fp string, nontrivial bo
 func TestC04(t *testing.T) {
 	seed := envInt("VERIF_SEED", 1)
 	col := NewCollector("C04", seed)
-	n := 90
+	n := 140
 	if tier() == "thorough" {
 		n = 1200
 	}
